@@ -77,6 +77,28 @@ var baseTree = []treeSpec{
 	{rel: "tree/spool", dir: true, mode: os.ModeSticky | 0o777, mtime: 1600002440},
 	{rel: "tree/shared", dir: true, mode: os.ModeSetgid | 0o775, mtime: 1600002450},
 	{rel: "tree/shared/run", body: "run-as-owner", mode: os.ModeSetuid | os.ModeSetgid | 0o711, mtime: 1600002460},
+	// a tree laid out like a file-system root: it passes through directories other packages own (files/fs.go lists
+	// them, the logrotate ones at the end), which a tree entry must only imply
+	{rel: "fsroot", dir: true, mode: 0o755, mtime: 1600002500},
+	{rel: "fsroot/etc", dir: true, mode: 0o755, mtime: 1600002501},
+	{rel: "fsroot/etc/logrotate.d", dir: true, mode: 0o755, mtime: 1600002502},
+	{rel: "fsroot/etc/logrotate.d/app", body: "/var/log/app.log {}\n", mode: 0o644, mtime: 1600002503},
+	{rel: "fsroot/usr", dir: true, mode: 0o755, mtime: 1600002504},
+	{rel: "fsroot/usr/lib", dir: true, mode: 0o755, mtime: 1600002505},
+	{rel: "fsroot/usr/lib/.build-id", dir: true, mode: 0o755, mtime: 1600002506},
+	{rel: "fsroot/usr/lib/.build-id/ae", dir: true, mode: 0o755, mtime: 1600002507},
+	{rel: "fsroot/usr/lib/.build-id/ae/deadbeef", body: "id", mode: 0o644, mtime: 1600002508},
+	{rel: "fsroot/usr/share", dir: true, mode: 0o755, mtime: 1600002509},
+	{rel: "fsroot/usr/share/licenses", dir: true, mode: 0o755, mtime: 1600002510},
+	{rel: "fsroot/usr/share/licenses/logrotate", dir: true, mode: 0o755, mtime: 1600002511},
+	{rel: "fsroot/usr/share/licenses/logrotate/COPYING", body: "GPL", mode: 0o644, mtime: 1600002512},
+	{rel: "fsroot/var", dir: true, mode: 0o755, mtime: 1600002513},
+	{rel: "fsroot/var/lib", dir: true, mode: 0o755, mtime: 1600002514},
+	{rel: "fsroot/var/lib/logrotate", dir: true, mode: 0o755, mtime: 1600002515},
+	{rel: "fsroot/var/lib/logrotate/status", body: "s", mode: 0o644, mtime: 1600002516},
+	{rel: "fsroot/opt", dir: true, mode: 0o755, mtime: 1600002517},
+	{rel: "fsroot/opt/app", dir: true, mode: 0o755, mtime: 1600002518},
+	{rel: "fsroot/opt/app/bin", body: "b", mode: 0o755, mtime: 1600002519},
 }
 
 // MkTree writes the base tree under dir (which must be fresh) and fixes
